@@ -43,10 +43,12 @@ const MARKER: &[u8] = b"C09-PLAINTEXT-MARKER";
 // nonce monitor (process-global: the hook is a plain fn called from every worker thread)
 
 const SHARDS: usize = 64;
-const MAX_NONCE_ENTRIES: u64 = 6_000_000;
+const MAX_NONCE_ENTRIES: u64 = 16_000_000;
+const SITES: [&str; 4] = ["put_chunk", "multipart_chunk", "multipart_tail_chunk", "metadata_seal"];
 
 struct NonceMon {
-    shards: Vec<Mutex<HashMap<[u8; 12], (u64, u64, &'static str)>>>,
+    /// nonce -> digest of (aad, plaintext) with the call site index in the low 2 bits
+    shards: Vec<Mutex<HashMap<[u8; 12], u64>>>,
     events: AtomicU64,
     distinct: AtomicU64,
     identical_repeats: AtomicU64,
@@ -86,21 +88,25 @@ fn nonce_hook(site: &'static str, nonce: &[u8; 12], aad: &[u8], plaintext: &[u8]
     let m = nonce_mon();
     m.events.fetch_add(1, Ordering::Relaxed);
     SITE_COUNTS.with(|c| *c.borrow_mut().entry(site).or_insert(0) += 1);
-    let da = vcore::fnv(aad) ^ fnv2(aad).rotate_left(7);
-    let dp = vcore::fnv(plaintext) ^ fnv2(plaintext).rotate_left(7);
+    // one 64-bit digest of the (aad, plaintext) pair, from two independent hash functions
+    let digest = (vcore::fnv(aad) ^ fnv2(plaintext)).wrapping_mul(0x9e3779b97f4a7c15) ^ fnv2(aad).rotate_left(29) ^ vcore::fnv(plaintext).rotate_left(3);
+    let site_idx = SITES.iter().position(|s| *s == site).unwrap_or(0) as u64;
+    let digest = digest & !3;
     let shard = &m.shards[(nonce[0] as usize ^ nonce[5] as usize) % SHARDS];
     let mut g = shard.lock().unwrap_or_else(|e| e.into_inner());
     match g.get(nonce) {
-        Some((a, p, s0)) => {
-            if *a == da && *p == dp {
+        Some(v) => {
+            let (d0, s0) = (*v & !3, *v & 3);
+            if d0 == digest {
                 m.identical_repeats.fetch_add(1, Ordering::Relaxed);
             } else {
                 let mut c = m.collisions.lock().unwrap_or_else(|e| e.into_inner());
                 if c.len() < 8 {
                     let hex: String = nonce.iter().map(|x| format!("{x:02x}")).collect();
                     c.push(format!(
-                        "nonce {hex} used at `{s0}` and again at `{site}` with a different (aad, plaintext): \
+                        "nonce {hex} used at `{}` and again at `{site}` with a different (aad, plaintext): \
                          aad {}B, plaintext {}B",
+                        SITES.get(s0 as usize).copied().unwrap_or("?"),
                         aad.len(),
                         plaintext.len()
                     ));
@@ -109,7 +115,7 @@ fn nonce_hook(site: &'static str, nonce: &[u8; 12], aad: &[u8], plaintext: &[u8]
         }
         None => {
             if m.distinct.load(Ordering::Relaxed) < MAX_NONCE_ENTRIES {
-                g.insert(*nonce, (da, dp, site));
+                g.insert(*nonce, digest | site_idx);
                 m.distinct.fetch_add(1, Ordering::Relaxed);
             } else {
                 m.saturated.store(true, Ordering::Relaxed);
@@ -1064,6 +1070,25 @@ async fn copy_then_read(store: &Store, ks: &KeyState, k: usize, rb: bool, p: &mu
     p.push("copy_then_read", o);
 }
 
+/// The document as the store's struct decoder sees it: known fields only, field names given as
+/// text or byte strings, null = absent (serde's treatment of `Option` fields).
+fn struct_view(doc: &[u8]) -> Option<BTreeMap<String, String>> {
+    const FIELDS: [&str; 12] = ["s", "e", "o", "v", "n", "t", "c", "av", "an", "at", "g", "m"];
+    let m = cbor_decode(doc)?;
+    let mut out = BTreeMap::new();
+    for (k, v) in &m {
+        let name = match k {
+            Cbor::Text(t) => t.clone(),
+            Cbor::Bytes(b) => String::from_utf8(b.clone()).ok()?,
+            _ => continue,
+        };
+        if FIELDS.contains(&name.as_str()) && !matches!(v, Cbor::Null) {
+            out.insert(name, format!("{v}"));
+        }
+    }
+    Some(out)
+}
+
 fn full_hex(b: &[u8]) -> String {
     b.iter().map(|x| format!("{x:02x}")).collect()
 }
@@ -1223,6 +1248,29 @@ async fn run_tamper(ctx: &StateCtx<'_>, t: &Tamper, idx: usize, warm: bool, st: 
     if all_original {
         st.count("neutral_tampers");
         st.count(&format!("neutral:{class}"));
+        // why was a metadata tamper neutral? (a) the bytes re-decode to the same document,
+        // (b) the decoded document differs in something no read path depends on (reported)
+        if !warm {
+            for (path, e) in &t.edits {
+                let (Some(b), Some(ks)) = (e, s.keys.iter().find(|k| &k.meta_path == path)) else { continue };
+                let same = match (struct_view(b), struct_view(&ks.meta_new)) {
+                    (Some(x), Some(y)) => x == y,
+                    _ => false,
+                };
+                if same {
+                    st.count("neutral_metadata_tamper:decodes_to_same_document");
+                } else {
+                    st.count("neutral_metadata_tamper:document_differs_but_reads_unaffected");
+                    st.count(&format!("neutral_differs:{class}"));
+                    let what = t.what.clone();
+                    let installed = cbor2::from_slice::<Cbor>(b).map(|v| format!("{v}")).unwrap_or_else(|e| format!("undecodable generically: {e:?}"));
+                    let orig = cbor2::from_slice::<Cbor>(&ks.meta_new).map(|v| format!("{v}")).unwrap_or_default();
+
+                    st.sample(move || json!({"monitor": "neutral_metadata_tamper_with_different_document", "tamper": what,
+                                             "installed": installed, "untampered": orig}));
+                }
+            }
+        }
     }
     if class == "control_reencode_identity" && !all_original {
         st.inconclusive("C09: a metadata document re-encoded by the harness without change is no longer readable: CBOR-level tampers are not meaningful");
@@ -1325,11 +1373,13 @@ async fn tamper_case_async(case: u64, rng: &mut Rng, st: &mut Stats, chunks: &[u
     st.add(if strict { "tampers_judged_strict_mode" } else { "tampers_judged_compat_mode" }, tampers.len() as u64);
     st.max("max_tamper_sites_per_state", tampers.len() as u64);
     st.distinct(vcore::fnv_str(&format!("{c}|{si}|{mi}")));
-    st.sample(|| {
-        json!({"monitor": "tamper_enumeration", "chunk_size": c, "strict": strict,
+    if case % 24 < 2 {
+        st.sample(|| {
+            json!({"monitor": "tamper_enumeration", "chunk_size": c, "strict": strict,
                "keys": s.keys.iter().map(|k| format!("{} {}B via {:?} (previous version {}B), metadata {}B", k.key, k.orig.len(), k.method, k.old.len(), k.meta_new.len())).collect::<Vec<_>>(),
                "tamper_sites": tampers.len()})
-    });
+        });
+    }
     complete
 }
 
@@ -1531,7 +1581,9 @@ async fn leak_case_async(case: u64, rng: &mut Rng, st: &mut Stats) {
     }
     st.eval();
     scan_for_plaintext(&spy, &plaintexts, st, &|| json!({"case": case, "workload": history, "chunk_size": c})).await;
-    st.sample(|| json!({"monitor": "plaintext_scan", "chunk_size": c, "operations": history.iter().take(10).collect::<Vec<_>>()}));
+    if case < 2 {
+        st.sample(|| json!({"monitor": "plaintext_scan", "chunk_size": c, "operations": history.iter().take(10).collect::<Vec<_>>()}));
+    }
 }
 
 // ---------------------------------------------------------------------------------------------
@@ -1614,6 +1666,9 @@ async fn nonce_case_async(case: u64, rng: &mut Rng, st: &mut Stats, volume: usiz
                 }
             }
         }
+        if case == 0 && i == 1 {
+            st.sample(|| json!({"monitor": "nonce_workload", "chunk_size": c, "first_object_bytes": n, "chunks": n.div_ceil(c as usize), "multipart": via_multipart}));
+        }
         if rng.chance(1, 3) {
             let to = Path::from(format!("n/copy{}", rng.below(3)));
             let _ = store.copy(&key, &to).await;
@@ -1641,21 +1696,23 @@ fn main() {
     let chunks: Vec<u64> = t.pick(vec![1, 7], vec![1, 7, 16]);
     let n_states = (chunks.len() * 6 * METHODS.len()) as u64;
     let mut exhaustive = true;
+    // the nonce workload goes first: its chunk nonces enter the table before the many metadata
+    // seals of the tamper section's copy-then-read probes
+    if run.wants("nonce") {
+        run.parallel("nonce", t.pick(48, 400), 0.12, |c, rng, st| nonce_case(c, rng, st, t.pick(6000, 20_000)));
+    }
+    if run.wants("leak") {
+        run.parallel("leak", t.pick(1500, 60_000), 0.25, leak_case);
+    }
     if run.wants("tamper") {
         let complete = AtomicU64::new(0);
-        let ran = run.parallel("tamper", n_states, 0.75, |c, rng, st| {
+        let ran = run.parallel("tamper", n_states, 0.95, |c, rng, st| {
             if tamper_case(c, rng, st, &chunks, t.pick(false, true)) {
                 complete.fetch_add(1, Ordering::Relaxed);
             }
         });
         exhaustive &= ran == n_states && complete.load(Ordering::Relaxed) == n_states;
         run.stats.add("object_states_fully_enumerated", complete.load(Ordering::Relaxed));
-    }
-    if run.wants("leak") {
-        run.parallel("leak", t.pick(1500, 60_000), 0.5, leak_case);
-    }
-    if run.wants("nonce") {
-        run.parallel("nonce", t.pick(48, 1200), 0.9, |c, rng, st| nonce_case(c, rng, st, t.pick(6000, 20_000)));
     }
     // nonce monitor verdict
     let m = nonce_mon();
